@@ -238,6 +238,25 @@ class RealClient:
     def conn(self):
         return self.cproto
 
+    def set_immediate(self):
+        """From now on this link behaves like an in-process loop-back pipe: what either end writes is read by the other
+        end before write() returns (only switch when nothing is in flight)."""
+        self._harvest()
+        if self.c2s or self.s2c:
+            raise RuntimeError('bytes in flight')
+
+        def c_hook(kind, payload):
+            if kind == 'write':
+                self._c_seen += len(payload)
+                self.server.feed(payload)
+
+        def s_hook(kind, payload):
+            if kind == 'write':
+                self._s_seen += len(payload)
+                self.client.feed(payload)
+        self.client.t.on_event = c_hook
+        self.server.t.on_event = s_hook
+
     def disconnect(self):
         if self.connected:
             self.connected = False
